@@ -131,7 +131,8 @@ def pSchema : P SchemaInfo := do
 /-- the decoder the model runs with: the SPECIFICATION for strings, bools and integers (ranged to
 the field's Go type), the harness's oracle answers (real function) for the rest -/
 def decOf (dspecs : List DecSpec) (tbl : List (Nat × List Char × Option (List Char))) : Dec := fun k v =>
-  match (dspecs[k]?).bind (fun sp => decodeSpec sp v) with
+  match (if k = kindHttpMethod then some (if validHttpMethod v then some "ok".toList else none)
+         else (dspecs[k]?).bind (fun sp => decodeSpec sp v)) with
   | some r => r
   | none =>
     match tbl.find? (fun e => e.1 = k ∧ e.2.1 = v) with
@@ -185,12 +186,15 @@ def smapStr (m : SMap) : String :=
 
 /-! ### ops -/
 
-def pFile : P (List Char × FileInfo) := do
+/-- one entry of the described tree: a regular file / directory (`FileInfo`) or a symbolic link
+(`some target`, absolute) -/
+def pFile : P (List Char × Option (List Char) × FileInfo) := do
   let path ← hexs
   let kind ← word
   let perm ← nat
   let content ← hexs
-  pure (path, ⟨kind = "d", perm, content⟩)
+  if kind = "l" then pure (path, some content, ⟨false, perm, []⟩)
+  else pure (path, none, ⟨kind = "d", perm, content⟩)
 
 def pGlob : P (List Char × Option (List (List Char))) := do
   let pat ← hexs
@@ -199,8 +203,26 @@ def pGlob : P (List Char × Option (List (List Char))) := do
     let ms ← times k.toNat hexs
     pure (pat, some ms)
 
-def fsOf (files : List (List Char × FileInfo)) (globs : List (List Char × Option (List (List Char)))) : FS :=
-  { stat := fun p => (files.find? (fun e => e.1 = p)).map (·.2)
+abbrev Tree := List (List Char × Option (List Char) × FileInfo)
+
+/-- the path the kernel resolves a spelling to: made absolute against the working directory,
+cleaned, final-component symbolic links followed (the harness only makes file links) -/
+def realPath (tree : Tree) (cwd : List Char) (p : List Char) : List Char :=
+  let rec follow : Nat → List Char → List Char
+    | 0, q => q
+    | n + 1, q =>
+      match tree.find? (fun e => e.1 = q) with
+      | some (_, some target, _) => follow n (cleanPath target)
+      | _ => q
+  follow 4 (cleanPath (if isAbsPath p then p else cwd ++ '/' :: p))
+
+/-- the file system the real Merger ran on: `stat` by resolved path (so every spelling of a file
+answers), `glob` by the harness's table of real `filepath.Glob` answers -/
+def fsOf (tree : Tree) (cwd : List Char) (globs : List (List Char × Option (List (List Char)))) : FS :=
+  { stat := fun p =>
+      match tree.find? (fun e => e.1 = realPath tree cwd p) with
+      | some (_, none, fi) => some fi
+      | _ => none
     glob := fun pat => match globs.find? (fun e => e.1 = pat) with
       | some e => e.2
       -- a pattern the harness did not pre-compute: answer a `.dae` path that cannot be stat-ed, so
@@ -257,7 +279,8 @@ def handle (st : St) (line : String) : St × String :=
     -- FuzzyDecode of one value: the specification where there is one, "oracle" otherwise
     match st.schema, k.toNat?, unhex v with
     | some si, some k, some v =>
-      match (si.specs[k]?).bind (fun sp => decodeSpec sp v) with
+      match (if k = kindHttpMethod then some (if validHttpMethod v then some "ok".toList else none)
+             else (si.specs[k]?).bind (fun sp => decodeSpec sp v)) with
       | some (some c) => (st, "ok " ++ esc c)
       | some none => (st, "err")
       | none => (st, "oracle")
@@ -269,18 +292,21 @@ def handle (st : St) (line : String) : St × String :=
         ++ " abs=" ++ boolStr (isAbsPath a) ++ " sub=" ++ boolStr (ensureInSubDir a b))
     | _, _ => (st, "bad-op")
   | "m" :: entry :: rest =>
-    let p : P (List (List Char × FileInfo) × List (List Char × Option (List (List Char)))) := do
+    let p : P (List Char × Tree × List (List Char × Option (List (List Char)))) := do
+      expect "C"; let cwd ← hexs
       expect "F"; let n ← nat; let files ← times n pFile
       expect "G"; let g ← nat; let globs ← times g pGlob
-      pure (files, globs)
+      pure (cwd, files, globs)
     match unhex entry, runP p rest with
-    | some entry, some (files, globs) =>
-      -- regular files handed to os.Open (the harness observes the real opens with inotify, which
-      -- it filters to non-directories)
+    | some entry, some (cwd, tree, globs) =>
+      -- regular files handed to os.Open, by resolved path (the harness observes the real opens with
+      -- inotify, which reports the real file and which it filters to non-directories)
       let openedStr := fun (ms : MState) =>
-        " opened=" ++ ",".intercalate (sortStrings ((ms.opened.filter fun p =>
-          match files.find? (fun e => e.1 = p) with | some e => !e.2.isDir | none => true).map esc))
-      match merge st.K (fsOf files globs) (files.length + 2) entry with
+        " opened=" ++ ",".intercalate (sortStrings ((((ms.opened.map (realPath tree cwd)).eraseDups).filter fun p =>
+          match tree.find? (fun e => e.1 = p) with | some e => !e.2.2.isDir | none => true).map esc))
+      -- fuel: the closed universe of `merge_terminates` is the entry plus every glob answer
+      let fuel := (globs.map fun e => match e.2 with | some l => l.length | none => 0).sum + 3
+      match merge st.K (fsOf tree cwd globs) fuel entry with
       | (ms, .error e) => (st, "err:" ++ merrStr e ++ openedStr ms)
       | (ms, .ok m) =>
         (st, "ok " ++ smapStr m ++ " entries=" ++ ",".intercalate (sortStrings (ms.visited.map esc)) ++ openedStr ms)
